@@ -948,6 +948,12 @@ func (vm *VM) execBuildArray() error {
 	}
 
 	elemCount := int(operand)
+	// The elements are popped from the stack, so a count beyond the stack is
+	// malformed bytecode; checking first keeps the operand from sizing an
+	// allocation (a 21-byte file could otherwise request gigabytes).
+	if elemCount < 0 || elemCount > len(vm.stack) {
+		return fmt.Errorf("stack underflow: array of %d elements with %d values on the stack", operand, len(vm.stack))
+	}
 	arr := make([]Value, elemCount)
 
 	// Pop in reverse order
@@ -1258,6 +1264,9 @@ func (vm *VM) execCall() error {
 	}
 
 	argCount := int(operand)
+	if argCount < 0 || argCount > len(vm.stack) {
+		return fmt.Errorf("stack underflow: call with %d arguments and %d values on the stack", operand, len(vm.stack))
+	}
 
 	// Pop arguments
 	args := make([]Value, argCount)
